@@ -1055,7 +1055,12 @@ func (sm *Sim) doAppend(s *Sess) {
 	if len(flags) > 0 || r.Intn(3) == 0 {
 		cmd += " (" + strings.Join(flags, " ") + ")"
 	}
-	cmd += " " + quote(imapDate(date))
+	dateKnown := true
+	if r.Intn(25) == 0 {
+		dateKnown = false // no date-time argument: the internal date is the time of arrival
+	} else {
+		cmd += " " + quote(imapDate(date))
+	}
 	nonSync := r.Intn(3) == 0 && len(raw) <= 4096
 	s.tagN++
 	tag := fmt.Sprintf("s%dt%d", s.ID, s.tagN)
@@ -1094,7 +1099,7 @@ func (sm *Sim) doAppend(s *Sess) {
 	if !ok {
 		return
 	}
-	sm.rep.Class(fmt.Sprintf("APPEND/%s/junk=%v", tg.Status, junk))
+	sm.rep.Class(fmt.Sprintf("APPEND/%s/junk=%v/date=%v", tg.Status, junk, dateKnown))
 	if (b != nil) != (tg.Status == "OK") {
 		sm.observe(s, pre, "APPEND")
 		sm.fail(GroupModel, "append-outcome", fmt.Sprintf("APPEND to %q answered %s; mailbox exists=%v", name, tail(tg.Raw, 120), b != nil))
@@ -1123,7 +1128,7 @@ func (sm *Sim) doAppend(s *Sess) {
 		sm.fail(GroupModel, "appenduid-missing", fmt.Sprintf("APPEND answered without APPENDUID: %q", tg.Raw))
 		return
 	}
-	m := &Msg{UID: uid, P: p, Raw: raw, Flags: flagSet(flags), Date: date, DateKnown: true, Junk: junk}
+	m := &Msg{UID: uid, P: p, Raw: raw, Flags: flagSet(flags), Date: date, DateKnown: dateKnown, Junk: junk}
 	b.Msgs = append(b.Msgs, m)
 	b.All = append(b.All, uid)
 	b.UIDNext = uid + 1
